@@ -14,8 +14,8 @@ EXPLANATION = (
     "query is array::from_fn over a closure in which every index into the book array is the closure index and which calls "
     "the singular query of the same side/quantity; set_time / trading toggles / reset visit every book, get_time reads book "
     "0 (shared clock: table exception); effect summaries show a per-asset mutator writes only below order_books[asset]; "
-    "MarketEnv getters index with their asset parameter. The multi-asset step is checked as a sibling of the single-asset "
-    "one under C08/C11.")
+    "MarketEnv getters index with their asset parameter. The multi-asset step is held to the single-asset step's batch, "
+    "snapshot and recording rules (C08 / C10 / C11 rule sets instantiated for MarketEnv).")
 
 PER_ASSET = {  # Market method -> (OrderBook method, how the asset/id is given)
     "get_order_book": None, "get_order_book_mut": None,
@@ -195,5 +195,10 @@ def run(ctx):
     only_menv = (("MarketEnv", m.menv_fn, "market"),)
     c10.env_rules(ctx, m, only_menv)
     c11.step_rules(ctx, m, only_menv)
+    # .. and applies EVERY queued instruction of every asset, once, at start + position (each asset's history equals that of a
+    # stand-alone book fed that asset's operations at the same times): the batch rules of C08 on the multi-asset step
+    from . import c08
+    from .c06 import _Prefixed
+    c08.step_rules(_Prefixed(ctx, "batch-"), m, "MarketEnv", StepShape(m, m.menv_fn("step"), "market"))
     ctx.note("get_order_book_mut hands out &mut to one book (documented API); the shared-clock clause assumes callers do not desynchronise books through it")
     ctx.assume("ASSETS >= 1 (get_time reads book 0)")
